@@ -46,9 +46,22 @@ def _case(s, k, rng):
         rp = _pair(sample_hdi(arr[perm], f))
         a, b = int(rng.integers(1, 4)), int(rng.integers(-3, 6))
         ra = _pair(sample_hdi(a * arr + b, f))
+        # non-dyadic float values (0.1 x - 0.37: lo + (hi - lo) is not hi in doubles) and whole numbers beyond 2^53 (int64): the end points are
+        # mapped back to the lattice by EXACT look-up, -996 if an end point is not one of the sample values
+        fmap = {float(0.1 * v - 0.37): int(v) for v in s}
+        rf_raw = np.asarray(sample_hdi(np.array([0.1 * v - 0.37 for v in s]), f), dtype=float).ravel()
+        rf = [fmap.get(float(v), -996) for v in rf_raw] if rf_raw.shape == (2,) else [-996, -996]
+        # whole numbers beyond 2^53 as int64 (2^60 + 100 x): the result is a float array, so an end point is known only up to the
+        # rounding of a double (256 at that magnitude); every lattice pair that rounds to the returned pair is a candidate
+        big = 2 ** 60
+        ri_raw = np.asarray(sample_hdi(np.array([big + 100 * int(v) for v in s], dtype=np.int64), f), dtype=float).ravel()
+        vals = sorted(set(int(v) for v in s))
+        ric = [[a_, b_] for a_ in vals for b_ in vals if ri_raw.shape == (2,) and float(big + 100 * a_) == ri_raw[0] and float(big + 100 * b_) == ri_raw[1]]
+        if not ric:
+            ric = [[-996, -996]]
     unchanged = bool(np.array_equal(arr, keep) and np.array_equal(flt, keepf) and np.array_equal(two, keep2)
                      and arr.shape == keep.shape and two.shape == keep2.shape)
-    return {"s": [int(v) for v in s], "k": int(k), "r": r, "same": same, "rp": rp, "ra": ra, "a": a, "b": b, "unchanged": unchanged}
+    return {"s": [int(v) for v in s], "k": int(k), "r": r, "same": same, "rp": rp, "ra": ra, "a": a, "b": b, "unchanged": unchanged, "rf": rf, "ric": ric}
 
 
 def run(tier):
@@ -101,7 +114,7 @@ def run(tier):
         e = events[i]
         ck.violation("Good / call-variant equality / permutation invariance / affine covariance / input unchanged",
                      {"sample": e["s"], "fraction": e["k"] / 16, "returned": e["r"], "variants[float,list,column,other-column,one-column]": e["same"],
-                      "permuted": e["rp"], "affine": {"a": e["a"], "b": e["b"], "returned": e["ra"]}, "input_unchanged": e["unchanged"]},
+                      "permuted": e["rp"], "float_values_0.1x-0.37 (as lattice values)": e.get("rf"), "int64_values_2^60+100x (candidate lattice pairs)": e.get("ric"), "affine": {"a": e["a"], "b": e["b"], "returned": e["ra"]}, "input_unchanged": e["unchanged"]},
                      site="sample_hdi")
     ck.sample({"part": "hdi", "sample": events[len(events) // 2]["s"], "fraction": events[len(events) // 2]["k"] / 16,
                "returned": events[len(events) // 2]["r"]})
